@@ -4,8 +4,8 @@
     wireexa encode SESS REQ     → `sent <body hex>` | `nothing` | `raised`
     wireexa attrs  SESS REQ     → <hex of the path attributes without MP_REACH> | `raised`
 
-  SESS is nine words:
-    <local AS> <peer AS> <asn4 0|1> <ADD-PATH send families> <ext-nexthop families> <msgSize>
+  SESS is ten words:
+    <local AS> <peer AS> <we sent ASN4 0|1> <asn4 negotiated 0|1> <ADD-PATH send families> <ext-nexthop families> <msgSize>
     <local address hex> <router id hex> <link-local address hex | ->
     families = `afi.safi` joined by `+`, `-` for none
   REQ is eight words:
@@ -25,12 +25,12 @@ def optHex? (s : String) : Option (Option Bytes) :=
 
 def sess? (ws : List String) : Option SessParams :=
   match ws with
-  | [las, pas, a4, ap, xnh, mx, la, rid, ll] =>
-    match las.toNat?, pas.toNat?, bool? a4, fams? ap, fams? xnh, mx.toNat?, hexBytes? la, hexBytes? rid, optHex? ll with
-    | some las, some pas, some a4, some ap, some xnh, some mx, some la, some rid, some ll =>
-      some { localAs := las, peerAs := pas, asn4 := a4, apSend := ap, extnh := xnh, msgSize := mx,
+  | [las, pas, s4, a4, ap, xnh, mx, la, rid, ll] =>
+    match las.toNat?, pas.toNat?, bool? s4, bool? a4, fams? ap, fams? xnh, mx.toNat?, hexBytes? la, hexBytes? rid, optHex? ll with
+    | some las, some pas, some s4, some a4, some ap, some xnh, some mx, some la, some rid, some ll =>
+      some { localAs := las, peerAs := pas, sentAsn4 := s4, asn4 := a4, apSend := ap, extnh := xnh, msgSize := mx,
              localAddr := la, routerId := rid, linkLocal := ll }
-    | _, _, _, _, _, _, _, _, _ => none
+    | _, _, _, _, _, _, _, _, _, _ => none
   | _ => none
 
 def nhReq? (s : String) : Option NhReq :=
@@ -72,7 +72,7 @@ def req? (ws : List String) : Option RouteReq :=
 def wireExaLine (ws : List String) : String :=
   match ws with
   | "encode" :: rest =>
-    (match sess? (rest.take 9), req? (rest.drop 9) with
+    (match sess? (rest.take 10), req? (rest.drop 10) with
      | some p, some r =>
        (match encodeExa p r with
         | .sent b => "sent " ++ toHex b
@@ -80,7 +80,7 @@ def wireExaLine (ws : List String) : String :=
         | .raised => "raised")
      | _, _ => "bad-op")
   | "attrs" :: rest =>
-    (match sess? (rest.take 9), req? (rest.drop 9) with
+    (match sess? (rest.take 10), req? (rest.drop 10) with
      | some p, some r =>
        (match resolveNh p r with
         | some nh => toHex (attrBytes p r nh)
